@@ -235,3 +235,43 @@ func (e *Engine) EnterFunc(s Site, call *ast.CallExpr, fn *core.Fn, methodExpr b
 func (e *Engine) WalkFrom(s Site, region ast.Node, visit func(s Site, n ast.Node)) {
 	e.walk(s.G, region, s.Up, visit)
 }
+
+// FollowFunc is Follow for a callee the rule resolved itself (see EnterFunc):
+// how result #idx is produced by fn when it is entered from the call at s.
+func (e *Engine) FollowFunc(s Site, call *ast.CallExpr, fn *core.Fn, methodExpr bool, recv ast.Expr, idx int) (rets []Ret, ok bool) {
+	hs, ok := e.EnterFunc(s, call, fn, methodExpr, recv)
+	if !ok {
+		return nil, false
+	}
+	cg, up := hs.G, hs.Up
+	var names []*ast.Ident
+	if fn.Decl.Type.Results != nil {
+		for _, fl := range fn.Decl.Type.Results.List {
+			names = append(names, fl.Names...)
+		}
+	}
+	nres := fn.Obj.Type().(*types.Signature).Results().Len()
+	for _, rp := range cg.Points(func(n ast.Node) bool { _, ok := n.(*ast.ReturnStmt); return ok }) {
+		ret := rp.Node().(*ast.ReturnStmt)
+		rs := Site{G: cg, At: rp, Up: up}
+		if idx < nres-1 && cfgq.ClassifyReturn(fn.Pkg.TypesInfo, fn.Decl.Body, ret) == cfgq.RetErr {
+			continue
+		}
+		switch {
+		case len(ret.Results) == 0:
+			if idx >= len(names) {
+				return nil, false
+			}
+			rets = append(rets, Ret{Site: rs, Expr: names[idx]})
+		case len(ret.Results) == 1 && nres > 1:
+			c2, isCall := ast.Unparen(ret.Results[0]).(*ast.CallExpr)
+			if !isCall {
+				return nil, false
+			}
+			rets = append(rets, Ret{Site: rs, Call: c2})
+		case idx < len(ret.Results):
+			rets = append(rets, Ret{Site: rs, Expr: ret.Results[idx]})
+		}
+	}
+	return rets, true
+}
